@@ -405,6 +405,11 @@ def gen_history(r, prog, n_ops, weights=None, sane=0.8, hand_n=0, slots=3, olds=
                 ops.append(["cunset", gi])
             elif k2 < 0.9:
                 ops.append(["unset", r.choice(g)])
+            k3 = r.random()
+            if k3 < 0.3:
+                ops.append(["read", [gi], 15])  # only the selection is looked at: member visibilities get cached, values do not
+            elif k3 < 0.45:
+                ops.append(["read", [b, gi], r.choice([2, 15])])
             if r.random() < 0.6:
                 flip()  # (otherwise the history goes on - or ends - with the member hidden / shown as the first flip left it)
         elif kind == "set":
@@ -426,7 +431,10 @@ def gen_history(r, prog, n_ops, weights=None, sane=0.8, hand_n=0, slots=3, olds=
             sub = [r.choice(pool) for _ in range(r.randint(1, min(len(names), 6)))]
             if nch and r.random() < 0.3:
                 sub.insert(r.randrange(len(sub) + 1), r.randrange(nch))
-            ops.append(["read", sub, r.choice([1, 3, 15, 15, 5, 9])])
+            if nch and r.random() < 0.12:
+                sub = [r.randrange(nch)]  # only a choice's selection is looked at (no member value is)
+            # attribute masks: 1 value, 2 visibility, 4 assignable, 8 config_string - partial reads leave partial caches
+            ops.append(["read", sub, r.choice([1, 3, 15, 15, 5, 9, 2, 2])])
         elif kind == "save":
             s = r.randrange(slots)
             saved.add(s)
